@@ -104,3 +104,22 @@ func errString(err error) string {
 	}
 	return err.Error()
 }
+
+// K6: Sign1 with protected {1: -7, -256: {0: 0, 1(0): 0}}, raw bytes discarded.
+func TestK6(t *testing.T) {
+	msg := unhex(t, "d2 84 4b a2012638ffa20000c10000 a0 41 01 42 0102")
+	var m cose.Sign1Message
+	if err := m.UnmarshalCBOR(msg); err != nil {
+		report(t, "K6", false, "message no longer accepted: "+err.Error())
+		return
+	}
+	m.Headers.RawProtected, m.Headers.RawUnprotected = nil, nil
+	out, err := m.MarshalCBOR()
+	if err != nil {
+		report(t, "K6", false, "re-encoding fails instead: "+err.Error())
+		return
+	}
+	var m2 cose.Sign1Message
+	err = m2.UnmarshalCBOR(out)
+	report(t, "K6", err != nil, "canonical form "+hex.EncodeToString(out)+" has a duplicate key and is refused: "+errString(err))
+}
